@@ -15,7 +15,8 @@ From Coq Require Import String NArith ZArith QArith Bool Arith List Permutation.
 From GT Require Import Base.UTree Spec.Obs Spec.ConsensusSpec Model.Reroot Model.Index Model.EdgeIndex Model.Compare Model.Consensus
      Proofs.IndexSplit Proofs.CompareTree Proofs.CompareMain Proofs.ConsensusFloat Proofs.ConsensusCount
      Proofs.ConsensusMain Proofs.ConsensusFreq Proofs.CompareDomain Proofs.CompareBridge Proofs.ConsensusRooted.
-From GT Require Import Spec.Unrooted Proofs.Unroot Proofs.ConsensusRound Proofs.ConsensusCompat Proofs.CompareTotal Proofs.ConsensusFold.
+From GT Require Import Spec.Unrooted Proofs.Unroot Proofs.ConsensusRound Proofs.ConsensusCompat Proofs.CompareTotal Proofs.ConsensusFold Proofs.ConsensusInsert Proofs.ConsensusTreeMain.
+From GT Require Import Model.ConsensusTree Proofs.CompareDomain Proofs.ConsensusCompat.
 Import ListNotations.
 Local Close Scope Q_scope.
 Local Open Scope string_scope.
@@ -320,3 +321,59 @@ Theorem C09_ins_all_spec :
       exists t', ins_all T D ins t l = Some t' /\ forall x, In x (sp t') <-> In x l \/ In x (sp t).
 Proof. exact ins_all_spec. Qed.
 Print Assumptions C09_ins_all_spec.
+
+(** * the constructed consensus tree.
+    [consensus_utree] (Model/ConsensusTree.v) builds the tree on [utree]: star tree, then each kept
+    bipartition inserted as a clade ([insert_clade]) below the deepest node containing its
+    canonical side.  It is tied to the code by the correspondence: on every case the judge checks
+    that it has the same bipartitions, lengths and supports as the Go tree (whose exact neighbour
+    structure is compared with [consensus_hm], the model of the pointer surgery of AddBipartition).
+    The theorems below are about [consensus_utree]. *)
+
+(** the single step: inserting a side laminar with every clade adds exactly one branch with the
+    given data and keeps all the others *)
+Theorem C09_insert_clade_spec :
+  forall (all k : list string) (d : einfo),
+    Sorted.StronglySorted Splits.slt k -> 2 <= length k ->
+    forall u,
+      IndexTree.children_wf (uslots u) = true -> NoDup (leaves u) -> incl k (leaves u) -> kids u <> [] ->
+      (forall ec, In ec (edges_below u) -> nested_or_disjoint k (EL ec)) ->
+      step_ok all k d u (insert_clade k d u).
+Proof. exact insert_clade_spec. Qed.
+Print Assumptions C09_insert_clade_spec.
+
+(** the whole tree: its branches are the kept bipartitions with (mean length, frequency) and the
+    tip branches with their mean lengths; it is a well-formed tree on the taxa *)
+Theorem C09_consensus_utree_spec :
+  forall (t0 : utree) (r : list utree) (c64 : Q),
+    Forall (fun t => good t /\ tipset t = tipset t0) (t0 :: r) -> ((1 # 2) <= c64)%Q ->
+    Permutation (branch_splits (tipset t0) (consensus_utree (t0 :: r) c64))
+                (map (fun k => mkSplit k (mean (lens_of (t0 :: r) k))
+                                       (inject_Z (Z.of_nat (freq_count (t0 :: r) k)) / inject_Z (Z.of_nat (length (t0 :: r))))%Q false)
+                     (kept_keys (t0 :: r) c64)
+                 ++ map (fun x => mkSplit (tip_key (tipset t0) x) (mean (lens_of (t0 :: r) (tip_key (tipset t0) x))) nilv true)
+                        (tipset t0))
+    /\ wf (consensus_utree (t0 :: r) c64) = true
+    /\ (forall x, In x (leaves (consensus_utree (t0 :: r) c64)) <-> In x (tipset t0))
+    /\ NoDup (leaves (consensus_utree (t0 :: r) c64)).
+Proof. exact consensus_utree_spec. Qed.
+Print Assumptions C09_consensus_utree_spec.
+
+(** in the words of the property: the inner branches of the consensus are exactly the non-trivial
+    bipartitions whose frequency is strictly greater than the threshold or that occur in every
+    tree, each with that frequency as support and the mean of its lengths as length *)
+Theorem C09_consensus_headline :
+  forall (t0 : utree) (r : list utree) (cutoff : Q),
+    let ts := t0 :: r in
+    let all := tipset t0 in
+    let n := length ts in
+    Forall (fun t => good t /\ tipset t = all) ts ->
+    ((1 # 2) <= cutoff)%Q -> (cutoff <= 1)%Q -> (Zpos (Qden cutoff) * Z.of_nat n < 2 ^ 52)%Z ->
+    forall s,
+      (In s (branch_splits all (consensus_utree ts (round53 cutoff))) /\ stip s = false) <->
+      (exists k, In k (all_keys ts) /\ 2 <= length k /\ 2 <= length all - length k /\
+                 ((cutoff < inject_Z (Z.of_nat (freq_count ts k)) / inject_Z (Z.of_nat n))%Q \/ freq_count ts k = n) /\
+                 s = mkSplit k (mean (lens_of ts k))
+                             (inject_Z (Z.of_nat (freq_count ts k)) / inject_Z (Z.of_nat n))%Q false).
+Proof. exact consensus_headline. Qed.
+Print Assumptions C09_consensus_headline.
